@@ -164,6 +164,20 @@ def check(run):
         if compare_tables(run, R0, run_power(ps, pos, box, conf, pos2=pos), desc, 'cross-equals-auto'):
             continue
         nt('cross')
+        # 4b. the very same array object passed as both fields, and the caller's positions afterwards
+        p_same = pos.copy()
+        run.ev()
+        with warnings.catch_warnings():
+            warnings.simplefilter('ignore')
+            kw = dict(conf['kw'])
+            Rs = ps.calc_power(p_same, box, nmesh=conf['nmesh'], paste=conf['paste'], compensated=conf['compensated'], interlaced=conf['interlaced'], nthread=conf['nthread'], dtype=conf['dtype'], pos2=p_same, **kw)
+        if compare_tables(run, R0, Rs, dict(desc, pos2='same array object'), 'cross-equals-auto'):
+            continue
+        moved = np.abs(((p_same.astype(np.float64) - pos.astype(np.float64)) + box / 2) % box - box / 2).max() if len(pos) else 0.0
+        if moved > 1e-6 * box:
+            run.violation('power-displaces-callers-positions', dict(max_displacement=float(moved), cell=box / nmesh, **desc))
+            continue
+        nt('cross-same-object')
         # 5. particle-independent columns
         other, _ = lattice(rng, max(10, N // 3), nmesh, box, clustered=False)
         run.ev()
